@@ -1350,7 +1350,11 @@ func c13MenuChanMig(config, size string) ([]c13Cmd, []c13Cmd, []string) {
 			upsert("e2l1L1:r1234:lease2000", "stale", rtm(2, 1, 1, r1234, 2000)), retAdv(2), control}
 		reset := resetFence(g2, r2, metadb.ChannelMigrationPhaseWarmCatchUp, 200)
 		full = []c13Cmd{promote, clr, abortFenced, reset,
-			upsert("e2l1L1:r1234:lease2000", "stale", rtm(2, 1, 1, r1234, 2000)), upsert("e3l1L1:r124:lease3000", "valid", rtm(3, 1, 1, []uint64{1, 2, 4}, 3000)), retAdv(2), control}
+			upsert("e2l1L1:r1234:lease2000", "stale", rtm(2, 1, 1, r1234, 2000)), upsert("e3l1L1:r124:lease3000", "valid", func() metadb.ChannelRuntimeMeta {
+				m := rtm(3, 1, 1, []uint64{1, 2, 4}, 3000)
+				m.ISR = []uint64{1, 2, 4}
+				return m
+			}()), retAdv(2), control}
 		must = []string{promote.label, clr.label, abortFenced.label}
 		if size == "full" {
 			must = append(must, reset.label)
@@ -1406,6 +1410,7 @@ func c13RunChanMig(r *ev.R, config, size string, depth int) {
 	r.Guard(s.name+"/logs", res.Transitions >= 150, "command logs=%d", res.Transitions)
 	r.Guard(s.name+"/variants", s.partitionRuns.Load() >= 100 && s.restartRuns.Load() >= 100 && s.snapshotRuns.Load() >= 100,
 		"partition runs=%d restart runs=%d snapshot-restore runs=%d", s.partitionRuns.Load(), s.restartRuns.Load(), s.snapshotRuns.Load())
+	r.Guard(s.name+"/menu-well-formed", s.refusedLogs.Load() == 0, "logs ending in a refused command=%d (every command of these menus is well-formed and owned: none may be refused)", s.refusedLogs.Load())
 }
 
 // ---------------------------------------------------------------- garbage payloads (enum)
